@@ -12,8 +12,11 @@ Open Scope Z_scope.
    and 3df99c9 (cost comparisons against the remaining budget).  Before them the statement was false
    for pools with a built-in function name or a math.MaxInt cost; it now holds for them too.
    Hypotheses, spelled out:
-   [bg_pool_ok pool]   every pool transaction passed admission (bt_valid: hash, signature, ids) and every
-                       estimated cost is a non-negative Go int, i.e. in [0, 2^63) (math.MaxInt included);
+   [bg_pool_ok pool]   every pool transaction passed admission (bt_valid: hash, signature, ids), the cost
+                       EstimateTransactionCostFee hands to the pool iteration equals the cost
+                       EstimateTransactionCost gives the verifier (bt_gcost = bt_cost; the engine checks this
+                       on the real code for every pool transaction), and every estimated cost is a
+                       non-negative Go int, i.e. in [0, 2^63) (math.MaxInt included);
    [bg_bis_ok cfg pool bis bic]  the cost limit is a Go int not below the total cost [bic] of the
                        built-in transactions, which are valid, dated with the block, pairwise different in
                        hash and name and different in hash from every pool transaction. *)
@@ -76,7 +79,7 @@ Theorem C45_cost_le_limit :
   forall (state : Type) (apply : state -> bg_txn -> option (state * bg_out))
          (snonce : state -> Z -> option Z) (root chg : state -> Z)
          cfg st0 pool bis bic b,
-    bg_bis_ok cfg pool bis bic -> bg_pool_costs_ok pool ->
+    bg_bis_ok cfg pool bis bic -> bg_pool_gcost_ok pool -> bg_pool_costs_ok pool ->
     bg_generate state apply snonce root chg cfg st0 pool bis = GenOk b ->
     exists s, bg_sum_exact (map fst (bk_txns b)) = Some s /\ s <= bc_maxcost cfg.
 Proof. exact bg_cost_le_limit. Qed.
@@ -95,10 +98,10 @@ Print Assumptions C45_builtin_at_most_once.
 
 (* ---------- the former counterexamples (before 2f9cdcc / 3df99c9) now verify ---------- *)
 Definition c45_cfg : bg_cfg :=
-  {| bc_maxcost := 100; bc_maxbytes := 1000000; bc_tol := 600; bc_bdate := 5000; bc_miner := 999 |}.
+  {| bc_maxcost := 100; bc_maxbytes := 1000000; bc_tol := 600; bc_bdate := 5000; bc_miner := 999; bc_fee := false; bc_minfee := 0 |}.
 Definition c45_txn (h c n cost fn kind v to : Z) : bg_txn :=
   {| bt_hash := h; bt_client := c; bt_nonce := n; bt_fee := 0; bt_cdate := 5000; bt_valbig := false;
-     bt_cost := Some cost; bt_size := 10; bt_fname := fn; bt_valid := true; bt_kind := kind;
+     bt_cost := Some cost; bt_gcost := Some cost; bt_gfee := 0; bt_exempt := false; bt_size := 10; bt_fname := fn; bt_valid := true; bt_kind := kind;
      bt_value := v; bt_to := to |}.
 
 (* two admitted contract calls named "payFees" (name 1), one ordinary call: the named ones are left out *)
@@ -110,19 +113,36 @@ Definition c45_pool_maxint : list bg_txn :=
    c45_txn 2 2 1 80 0 1 0 0; c45_txn 3 2 2 80 0 1 0 0].
 
 Example C45_named_pool_verifies :
-  match bg_generate bgc_state bgc_apply bgc_snonce (fun _ => 0) (fun _ => 0) c45_cfg [] c45_pool_named [] with
+  match bg_generate bgc_state (bgc_apply false) bgc_snonce (fun _ => 0) (fun _ => 0) c45_cfg [] c45_pool_named [] with
   | GenOk b => map (fun p => bt_hash (fst p)) (bk_txns b) = [2] /\
-               bg_verify bgc_state bgc_apply (fun _ => 0) (fun _ => 0) c45_cfg [] b
+               bg_verify bgc_state (bgc_apply false) (fun _ => 0) (fun _ => 0) c45_cfg [] b
                = VerOk (bk_root b) (map snd (bk_txns b)) (bk_chg b)
   | _ => False
   end.
 Proof. vm_compute. split; reflexivity. Qed.
 
 Example C45_maxint_pool_verifies :
-  match bg_generate bgc_state bgc_apply bgc_snonce (fun _ => 0) (fun _ => 0) c45_cfg [] c45_pool_maxint [] with
+  match bg_generate bgc_state (bgc_apply false) bgc_snonce (fun _ => 0) (fun _ => 0) c45_cfg [] c45_pool_maxint [] with
   | GenOk b => map (fun p => bt_hash (fst p)) (bk_txns b) = [0; 2] /\
-               bg_verify bgc_state bgc_apply (fun _ => 0) (fun _ => 0) c45_cfg [] b
+               bg_verify bgc_state (bgc_apply false) (fun _ => 0) (fun _ => 0) c45_cfg [] b
                = VerOk (bk_root b) (map snd (bk_txns b)) (bk_chg b)
+  | _ => False
+  end.
+Proof. vm_compute. split; reflexivity. Qed.
+
+(* the hypothesis bt_gcost = bt_cost is needed: three calls budgeted at 0 by the pool iteration but
+   costing 40 each for the verifier are all packed under a limit of 100 and the block is rejected *)
+Definition c45_pool_costsrc : list bg_txn :=
+  map (fun t => {| bt_hash := bt_hash t; bt_client := bt_client t; bt_nonce := bt_nonce t; bt_fee := 0;
+                   bt_cdate := bt_cdate t; bt_valbig := false; bt_cost := Some 40; bt_gcost := Some 0;
+                   bt_gfee := 0; bt_exempt := true; bt_size := 10; bt_fname := 0; bt_valid := true;
+                   bt_kind := 1; bt_value := 0; bt_to := 0 |})
+      [c45_txn 0 1 1 40 0 1 0 0; c45_txn 1 1 2 40 0 1 0 0; c45_txn 2 1 3 40 0 1 0 0].
+
+Example C45_cost_source_mismatch_rejected :
+  match bg_generate bgc_state (bgc_apply false) bgc_snonce (fun _ => 0) (fun _ => 0) c45_cfg [] c45_pool_costsrc [] with
+  | GenOk b => map (fun p => bt_hash (fst p)) (bk_txns b) = [0; 1; 2] /\
+               bg_verify bgc_state (bgc_apply false) (fun _ => 0) (fun _ => 0) c45_cfg [] b = VerFail 3
   | _ => False
   end.
 Proof. vm_compute. split; reflexivity. Qed.
@@ -143,6 +163,7 @@ Proof.
   split.
   - constructor.
     + intros t Ht. repeat (destruct Ht as [<-|Ht]; [reflexivity|]). destruct Ht.
+    + intros t Ht. repeat (destruct Ht as [<-|Ht]; [reflexivity|]). destruct Ht.
     + intros t c Ht Hc. repeat (destruct Ht as [<-|Ht]; [inversion Hc; lia|]). destruct Ht.
   - constructor; simpl; try lia; try reflexivity.
     + repeat constructor. exists 20. split; [reflexivity|lia].
@@ -154,9 +175,9 @@ Proof.
 Qed.
 
 Example C45_example_run :
-  match bg_generate bgc_state bgc_apply bgc_snonce (fun _ => 0) (fun _ => 0) c45_cfg c45_accts c45_pool c45_bis with
+  match bg_generate bgc_state (bgc_apply false) bgc_snonce (fun _ => 0) (fun _ => 0) c45_cfg c45_accts c45_pool c45_bis with
   | GenOk b => map (fun p => bt_hash (fst p)) (bk_txns b) = [1; 3; 0; 1002] /\
-               bg_verify bgc_state bgc_apply (fun _ => 0) (fun _ => 0) c45_cfg c45_accts b
+               bg_verify bgc_state (bgc_apply false) (fun _ => 0) (fun _ => 0) c45_cfg c45_accts b
                = VerOk (bk_root b) (map snd (bk_txns b)) (bk_chg b)
   | _ => False
   end.
